@@ -361,7 +361,7 @@ def s4(ctx):
             out.fail(key + '/' + msg.split(' reaches ')[-1].replace(' ', '-'), '%s: %s' % (key_of(b), msg), b.where(), {'path': path})
     out.floor('terminals', n, 80 if not ctx.fixture else 0)
     out.floor('find_tasks', len(find_tasks), 3 if not ctx.fixture else 0)
-    out.floor('fragment_append_entries', len(frag_entries), 3 if not ctx.fixture else 0)
+    out.floor('fragment_append_entries', len(frag_entries), 1 if not ctx.fixture else 0)
     return out
 
 
